@@ -198,6 +198,10 @@ func (x *Exec) evalSpec(sc *specCtx, e ast.Expr) Value {
 		return x.specIndex(sc, base, idx)
 	case *ast.CallExpr:
 		return x.evalSpecCall(sc, e)
+	case *ast.ArrayType, *ast.MapType, *ast.InterfaceType:
+		if t, ok := x.tryType(sc, e); ok {
+			return TypeV{t}
+		}
 	}
 	panic(engineErr("unsupported spec expression %s (%T)", exprString(e), e))
 }
@@ -1023,6 +1027,30 @@ func (x *Exec) defineSpecFun(sf *SpecFunc) {
 
 // matchEvent returns the condition under which event ev is a call of the function denoted by f.
 func (x *Exec) matchEvent(sc *specCtx, f ast.Expr, ev *Event) Term {
+	// on("lock", pe.lock): an event of that kind/name on that object (mutex, channel, wait group)
+	if ce, ok := f.(*ast.CallExpr); ok {
+		if id, ok := ce.Fun.(*ast.Ident); ok && id.Name == "on" && len(ce.Args) == 2 {
+			lit, ok := ce.Args[0].(*ast.BasicLit)
+			if !ok {
+				panic(engineErr("on(kind, object): kind must be a string literal"))
+			}
+			s, _ := strconv.Unquote(lit.Value)
+			if ev.Name != s && ev.Kind != s {
+				return tFalse
+			}
+			var want Term
+			if p, ok := x.evalAddr(sc, ce.Args[1]); ok {
+				want = x.ptrScalar(p)
+			} else {
+				want = x.flatten(x.evalSpec(sc, ce.Args[1]))[0]
+			}
+			if ev.Callee == nil {
+				return tFalse
+			}
+			got := x.flatten(ev.Callee)[0]
+			return eq(got, want)
+		}
+	}
 	if ev.Kind != "call" && ev.Kind != "go" {
 		if lit, ok := f.(*ast.BasicLit); ok && lit.Kind == token.STRING {
 			s, _ := strconv.Unquote(lit.Value)
@@ -1440,6 +1468,22 @@ func (x *Exec) tryType(sc *specCtx, e ast.Expr) (types.Type, bool) {
 	case *ast.StarExpr:
 		if t, ok := x.tryType(sc, e.X); ok {
 			return types.NewPointer(t), true
+		}
+	case *ast.ArrayType:
+		if e.Len == nil {
+			if t, ok := x.tryType(sc, e.Elt); ok {
+				return types.NewSlice(t), true
+			}
+		}
+	case *ast.MapType:
+		k, ok1 := x.tryType(sc, e.Key)
+		v, ok2 := x.tryType(sc, e.Value)
+		if ok1 && ok2 {
+			return types.NewMap(k, v), true
+		}
+	case *ast.InterfaceType:
+		if e.Methods == nil || len(e.Methods.List) == 0 {
+			return types.NewInterfaceType(nil, nil), true
 		}
 	}
 	return nil, false
